@@ -72,6 +72,8 @@ SOURCES = [
     G(id='g_reclaim', sig=GP + r'reclaim\(Deleter d\) noexcept', c_sig='static void g_reclaim(struct guard* self, deleter_t d)',
       deref={'this->ptr': 'GDEREF'},
       must_fire={'method:set_deleter': 1, 'method:add_retired_node': 1, 'method:get': 1, 'self_call:reset': 1}),
+    dict(id='g_dtor', file='xenium/reclamation/detail/guard_ptr.hpp', sig=r'~guard_ptr\(\)', c_sig='static void g_dtor(struct guard* self)',
+         pre_subst=[(r'self\(\)\.reset\(\)', 'g_reset(self)', 'crtp_self_reset')], must_fire={'subst:crtp_self_reset': 1}),   # CRTP: Derived::reset
     # ---- thread_data
     TD(id='td_dtor', sig=r'~thread_data\(\)', c_sig='static void td_dtor(struct td* self)',
        must_fire={'method:empty': 1, 'method:add': 1, 'method:steal': 1, 'method:release_entry': 1, 'A_LOAD': 1}),
@@ -150,7 +152,7 @@ def R(id, entry, mode='SEQ', defs=None, tiers=('quick', 'thorough'), note='', cl
     return dict(id=id, entry=entry, mode=mode, defs=defs or {}, tiers=list(tiers), cls=cls, unwind=UNW, note=note, **kw)
 RUNS = []
 # guard level: no loops, fully symbolic -> unbounded
-for op in ['ctor', 'copy', 'move', 'reset', 'assign_copy', 'assign_move', 'reclaim']:
+for op in ['ctor', 'copy', 'move', 'reset', 'dtor', 'assign_copy', 'assign_move', 'reclaim']:
     RUNS.append(R('g_' + op, 'h_g_' + op, cls='unbounded'))
 RUNS.append(R('region_guard', 'h_region_guard', cls='unbounded'))
 for op in ['acquire', 'acquire_if_equal']:
@@ -224,7 +226,7 @@ UNIT = dict(
     'ebr.enter.flag_then_fence_then_epoch': dict(deciding=True, text='when the in-critical flag is newly set: store(flag,true) precedes a seq_cst fence which precedes an acquire-or-stronger load of the global epoch, and on exit local_epoch is that loaded epoch or the loaded epoch + 1 and never exceeds the global epoch'),
     'ebr.acquire.enter_before_load': dict(deciding=True, text='[INT] acquire / acquire_if_equal: enter_critical precedes the load of the source whose value is kept, and no leave_critical follows it'),
     'ebr.acquire.snapshot': dict(deciding=True, text='[INT] a non-empty result is the value of the last load of the source, loaded with the requested order; acquire_if_equal returns true iff that snapshot equals expected, false leaves the guard empty'),
-    'ebr.nesting.balanced': dict(deciding=True, text='every guard / region operation on every path: enter_critical once per null->non-null transition, leave_critical once per non-null->null; the counters move by exactly one; the flag is cleared exactly when the relevant counter reaches 0 (never while a guard is left)'),
+    'ebr.nesting.balanced': dict(deciding=True, text='every guard / region operation on every path (constructor from marked_ptr, copy/move construction, copy/move assignment, acquire, acquire_if_equal, reset, reclaim, destructor; inputs range over all marked_ptr words, marked null included): nested_critical_entries changes by exactly (guards with bool(ptr) after) - (before), i.e. enter_critical once per null->non-null transition, leave_critical once per non-null->null; the counters move by exactly one; the flag is cleared exactly when the relevant counter reaches 0 (never while a guard is left)'),
     'ebr.copy.shares': dict(deciding=True, text='constructor from a marked_ptr, copy construction and copy assignment (self-assignment included) give the target the source value, leave the source untouched and take one more critical entry iff the value is non-null'),
     'ebr.move.empties_source': dict(deciding=True, text='move construction / move assignment transfer the value and the critical entry, the source becomes empty; self-move is a no-op'),
     'ebr.reclaim.retires_once': dict(deciding=True, text='reclaim(d): set_deleter(d) on the guarded object, then add_retired_node exactly once for that object while still inside the critical region, then the guard is reset'),
